@@ -1,7 +1,7 @@
 #!/usr/bin/env python3
 """Regenerates the appendix `GenAgree (pairwise translator)` at the END of coq/Props/C13.v from the
-lemma statements of coq/Proofs/GenAgreePairwise{,Means,Overlap,Legacy,Ctl}.v (everything from the marker
-line on is replaced; the text above it is not touched).  Usage: gen_c13_pairwise_appendix.py [/verif]"""
+lemma statements of coq/Proofs/GenAgreePairwise{,Means,Overlap,Legacy,Ctl}.v (the block from its marker line to its END
+marker is replaced; the text above and below it is not touched).  Usage: gen_c13_pairwise_appendix.py [/verif]"""
 import os
 import re
 import sys
@@ -9,8 +9,10 @@ import sys
 ROOT = sys.argv[1] if len(sys.argv) > 1 else "/verif"
 COQ = os.path.join(ROOT, "coq")
 MARK = "(* ==== GenAgree (pairwise translator): what measure.py, pairwise_significance.py, cubepart.py SAY NOW ==== *)"
+ENDMARK = "(* ==== GenAgree (pairwise translator): END ==== *)"
+OTHER_BEGIN = "(* ---- WIRING-APPENDIX:BEGIN"
 FILES = ("GenAgreePairwise", "GenAgreePairwiseMeans", "GenAgreePairwiseOverlap", "GenAgreePairwiseLegacy",
-         "GenAgreePairwiseCtl")
+         "GenAgreePairwiseLegacy2", "GenAgreePairwiseCtl", "GenAgreeOverlapBases")
 
 HEAD = MARK + """
 (* Gen/PairwiseSrc.v is REWRITTEN FROM THE SOURCE on every check by harness/translate/x_pairwise.py (an
@@ -26,12 +28,13 @@ HEAD = MARK + """
 From Coq Require String.
 From CC Require Base.MeasureExp Base.PairExp Base.PairCtlExp Model.PairwiseP Gen.PairwiseSrc Proofs.PairwisePProofs
      Proofs.GenAgreePairTac Proofs.GenAgreePairwise Proofs.GenAgreePairwiseMeans
-     Proofs.GenAgreePairwiseOverlap Proofs.GenAgreePairwiseLegacy Proofs.GenAgreePairwiseCtl.
+     Proofs.GenAgreePairwiseOverlap Proofs.GenAgreePairwiseLegacy Proofs.GenAgreePairwiseCtl
+     Model.PairwiseLegacy Proofs.GenAgreePairwiseLegacy2.
 Section GenAgreePairwise_C13.   (* scopes and imports below end with the section *)
 Import Coq.Strings.String CC.Base.MeasureExp CC.Base.PairExp CC.Base.PairCtlExp CC.Model.PairwiseP CC.Gen.PairwiseSrc
        CC.Proofs.PairwisePProofs CC.Proofs.GenAgreePairTac CC.Proofs.GenAgreePairwise
        CC.Proofs.GenAgreePairwiseMeans CC.Proofs.GenAgreePairwiseOverlap CC.Proofs.GenAgreePairwiseLegacy
-       CC.Proofs.GenAgreePairwiseCtl.
+       CC.Proofs.GenAgreePairwiseCtl CC.Model.PairwiseLegacy CC.Proofs.GenAgreePairwiseLegacy2.
 Import Coq.Lists.List.ListNotations CC.Base.XQ.
 Local Close Scope Q_scope.
 Local Open Scope string_scope.
@@ -135,7 +138,20 @@ GROUPS = (
     ("C13_gen_overlap_helper_p_vals", ["gen_OverlapHelper_p_vals"]),
     ("C13_gen_overlap_t_stats_for_subvar", ["gen_PairwiseSigTStatsForSubvar_t_stats"]),
     ("C13_gen_overlap_p_vals_for_subvar", ["gen_PairwiseSigPValsForSubvar_p_vals"]),
+    ("C13_gen_overlap_inserted_rows_for_subvar", ["gen_PairwiseSigTStatsForSubvar__hs_t_stats",
+                                                   "gen_PairwiseSigPValsForSubvar__hs_p_vals"]),
     ("C13_gen_legacy_t_stats", ["gen_Legacy_t_stats"]),
+    ("C13_gen_legacy_summary_t_stats", ["gen_Legacy_summary_t_stats"]),
+    ("C13_gen_legacy_df", ["gen_Legacy__df", "gen_Legacy__df_mat"]),
+    ("C13_gen_legacy_summary_p_vals", ["gen_Legacy_summary_p_vals"]),
+    ("C13_gen_legacy_summary_pairwise_indices", ["gen_Legacy_summary_pairwise_indices"]),
+    ("C13_gen_legacy_t_stats_scale_means", ["gen_Legacy_t_stats_scale_means"]),
+    ("C13_gen_legacy_two_sample_df", ["gen_Legacy__two_sample_df"]),
+    ("C13_gen_legacy_p_vals_scale_means", ["gen_Legacy_p_vals_scale_means"]),
+    ("C13_gen_legacy_scale_mean_pairwise_indices", ["gen_Legacy_scale_mean_pairwise_indices"]),
+    ("C13_gen_legacy_per_column", ["gen_PairwiseSignificance__scale_mean_pairwise_indices",
+                                   "gen_PairwiseSignificance_summary_pairwise_indices",
+                                   "gen_PairwiseSignificance_scale_mean_pairwise_indices"]),
     ("C13_gen_pairwise_indices", ["gen_Slice__pairwise_indices"]),
     ("C13_gen_alpha_values", ["gen_CubePartition__alpha_values"]),
     ("C13_gen_alpha_projections", ["gen_CubePartition__alpha_projections"]),
@@ -147,6 +163,127 @@ GROUPS = (
     ("C13_gen_pairwise_indices_args", ["gen_Slice_pairwise_indices", "gen_Slice_pairwise_indices_alt"]),
     ("C13_gen_pairwise_means_indices_args", ["gen_Slice_pairwise_means_indices", "gen_Slice_pairwise_means_indices_alt"]),
 )
+
+
+HEAD2 = """
+(* ==== GenAgree (overlap bases): which planes of cube.overlaps / cube.valid_overlaps feed the overlap test ==== *)
+(* Gen/CubeCountsSrc.v (first translator) holds what matrix/cubemeasure.py says for _CatXMrOverlaps / _MrXMrOverlaps
+   .selected_bases / .valid_bases; Gen/PairwiseSrc.v what _BaseCubeOverlaps.factory says (class dispatch, what
+   each constructor field is bound to, the `is None` guards).  The theorems say it denotes Model/OverlapBases.v;
+   the cut [FSliced] is cls._slice_idx_expr, whose reading is C01_gen_slice_idx_expr ([slice_at]); meaning theorems
+   about the model (legacy tests and overlap bases) follow. *)
+From CC Require Base.Tensor Base.TensorTile Model.CubeCounts Model.OverlapBases Gen.CubeCountsSrc Gen.StripeCountsSrc Gen.Tables
+     Proofs.GenAgreeTac Proofs.GenAgreeOverlapBases Proofs.PairwiseLegacyProofs.
+Section GenAgreeOverlapBases_C13.   (* scopes and imports below end with the section *)
+Import Coq.Strings.String CC.Base.Tensor CC.Base.TensorTile CC.Model.CubeCounts CC.Model.OverlapBases CC.Model.PairwiseLegacy
+       CC.Gen.CubeCountsSrc CC.Gen.StripeCountsSrc CC.Gen.Tables CC.Gen.PairwiseSrc CC.Proofs.GenAgreeTac
+       CC.Proofs.GenAgreeOverlapBases CC.Proofs.PairwiseLegacyProofs.
+Import Coq.Lists.List.ListNotations CC.Base.XQ.
+Local Close Scope Q_scope.
+Local Open Scope string_scope.
+Local Open Scope nat_scope.
+
+"""
+
+GROUPS2 = (
+    ("C13_gen_overlap_bases_classes", ["gen_CatXMrOverlaps_selected_bases", "gen_CatXMrOverlaps_valid_bases",
+                                       "gen_MrXMrOverlaps_selected_bases", "gen_MrXMrOverlaps_valid_bases"]),
+    ("C13_gen_overlaps_factory_binds", ["gen_overlaps_factory_binds"]),
+    ("C13_gen_overlaps_factory_dispatch", ["gen_dispatch_overlaps_selected", "gen_dispatch_overlaps_valid"]),
+)
+
+MEANING2 = r"""(* ---- what Model/PairwiseLegacy.v and Model/OverlapBases.v MEAN ---- *)
+Theorem C13_legacy_summary_formula (cb cb0 N : Q) :
+  (0 < N)%Q ->
+  let p := (cb / N)%Q in let p0 := (cb0 / N)%Q in
+  (0 < p * (1 - p) / N + p0 * (1 - p0) / N)%Q ->
+  summary_tabs (Fin cb) (Fin N) (Fin cb0) (Fin N) =x=
+  Fin ((p - p0) * Qabs.Qabs (p - p0) / (p * (1 - p) / N + p0 * (1 - p0) / N))%Q.
+Proof. exact (summary_tabs_formula cb cb0 N). Qed.
+Print Assumptions C13_legacy_summary_formula.
+
+Theorem C13_legacy_scale_formula (m v n m0 v0 n0 : Q) :
+  ~ (n == 0)%Q -> ~ (n0 == 0)%Q -> ~ (n0 + n - 2 == 0)%Q ->
+  (0 < qpool n v n0 v0)%Q -> (0 < 1 / n0 + 1 / n)%Q ->
+  scale_tabs (Fin m) (Fin v) (Fin n) (Fin m0) (Fin v0) (Fin n0) =x=
+  Fin ((m - m0) * Qabs.Qabs (m - m0) / (qpool n v n0 v0 * (1 / n0 + 1 / n)))%Q.
+Proof. exact (scale_tabs_formula m v n m0 v0 n0). Qed.
+Print Assumptions C13_legacy_scale_formula.
+
+Theorem C13_legacy_scale_df (n n0 : Q) : scale_df (Fin n) (Fin n0) =x= Fin (n0 + n - 2)%Q.
+Proof. exact (scale_df_fin n n0). Qed.
+Print Assumptions C13_legacy_scale_df.
+
+Theorem C13_legacy_scale_df_sym n n0 : scale_df n0 n =x= scale_df n n0.
+Proof. exact (scale_df_sym n n0). Qed.
+Print Assumptions C13_legacy_scale_df_sym.
+
+Theorem C13_legacy_valid_counts_all_valid nv M nr j :
+  (forall i, i < nr -> is_nan (vnth nv i) = false) ->
+  valid_counts nv M nr j = xsum (map (fun i => mnth M i j) (seq 0 nr)).
+Proof. exact (valid_counts_all_valid nv M nr j). Qed.
+Print Assumptions C13_legacy_valid_counts_all_valid.
+
+Theorem C13_legacy_where_def alpha ol pv tv n j :
+  In j (legacy_where alpha ol pv tv n) <->
+  j < n /\ xltb (pv j) alpha = true /\ (ol = true -> xltb (tv j) (Fin 0%Q) = true).
+Proof. exact (legacy_where_spec alpha ol pv tv n j). Qed.
+Print Assumptions C13_legacy_where_def.
+
+Theorem C13_legacy_where_self_excluded alpha pv tv n c :
+  tv c = Fin 0%Q \/ tv c = NaN -> ~ In c (legacy_where alpha true pv tv n).
+Proof. exact (legacy_where_self_excluded_t alpha pv tv n c). Qed.
+Print Assumptions C13_legacy_where_self_excluded.
+
+(* the witness of the open finding C05-scale-mean-pairwise-hidden, as the model (= the code) computes it:
+   CAT(values 1, 2, 3) x CAT, counts [[4,1],[1,1],[1,4]], column scale means 3/2, 5/2 *)
+Example C13_legacy_example :
+  let M := [[Fin 4%Q; Fin 1%Q]; [Fin 1%Q; Fin 1%Q]; [Fin 1%Q; Fin 4%Q]] in
+  let nv := [Fin 1%Q; Fin 2%Q; Fin 3%Q] in
+  let means := [Fin (3#2)%Q; Fin (5#2)%Q] in
+  (* all three rows displayed: n = 6, 6; variances 7/12; t^2 = 36/7 (t = 2.2678), df = 10 *)
+  valid_counts nv M 3 0 =x= Fin 6%Q /\
+  vnth (scale_t means [Fin (7#12)%Q; Fin (7#12)%Q] (valid_counts nv M 3) 0) 1 =x= Fin (36#7)%Q /\
+  vnth (scale_dfs 2 (valid_counts nv M 3) 0) 1 =x= Fin 10%Q /\
+  (* row 2 hidden: the displayed counts give n = 5, 5, variances 13/20: t^2 = 50/13 (t = 1.9612), df = 8 *)
+  (let M' := [[Fin 4%Q; Fin 1%Q]; [Fin 1%Q; Fin 4%Q]] in
+   let nv' := [Fin 1%Q; Fin 3%Q] in
+   vnth (scale_t means [Fin (13#20)%Q; Fin (13#20)%Q] (valid_counts nv' M' 2) 0) 1 =x= Fin (50#13)%Q /\
+   vnth (scale_dfs 2 (valid_counts nv' M' 2) 0) 1 =x= Fin 8%Q) /\
+  (* a row without a numeric value does not count *)
+  valid_counts [Fin 1%Q; NaN; Fin 3%Q] M 3 0 =x= Fin 5%Q /\
+  (* the summary test: shares 30/100 against 50/100 *)
+  vnth (summary_t [Fin 50%Q; Fin 30%Q] (fun _ => Fin 100%Q) 0) 1 =x= Fin ((-200) # 23)%Q /\
+  vnth (summary_df [Fin 50%Q; Fin 30%Q] 0) 1 =x= Fin 78%Q /\
+  legacy_where (Fin (5#100)%Q) true (vnth [Fin 1%Q; Fin (1#100)%Q; Fin (1#100)%Q]) (vnth [Fin 0%Q; Fin (-4)%Q; Fin 9%Q]) 3 = [1].
+Proof. vm_compute. repeat split; reflexivity. Qed.
+
+Theorem C13_overlap_slice_mr_table ndim k T idx : 3 <= ndim ->
+  overlap_slice ndim true k T idx = T (k :: 0 :: idx).
+Proof. exact (overlap_slice_mr_table ndim k T idx). Qed.
+Print Assumptions C13_overlap_slice_mr_table.
+
+Theorem C13_overlap_slice_cat_table ndim k T idx : 3 <= ndim ->
+  overlap_slice ndim false k T idx = T (k :: idx).
+Proof. exact (overlap_slice_cat_table ndim k T idx). Qed.
+Print Assumptions C13_overlap_slice_cat_table.
+
+Theorem C13_overlap_slice_2d ndim tmr k T : ndim < 3 -> overlap_slice ndim tmr k T = T.
+Proof. exact (overlap_slice_2d ndim tmr k T). Qed.
+Print Assumptions C13_overlap_slice_2d.
+
+Theorem C13_overlap_valid_excludes_missing V ncat r a b :
+  cm_valid V ncat 3 r a b =
+  xsumn ncat (fun c => xadd (V [c; a; 0; b]) (xadd (V [c; a; 1; b]) (Fin 0%Q))).
+Proof. exact (cm_valid_excludes_missing V ncat r a b). Qed.
+Print Assumptions C13_overlap_valid_excludes_missing.
+
+Theorem C13_overlap_mr_selected_planes O r a b :
+  mm_selected O 3 r a b = xadd (O [r; 0; a; 0; b]) (xadd (O [r; 1; a; 0; b]) (Fin 0%Q)).
+Proof. exact (mm_selected_planes O r a b). Qed.
+Print Assumptions C13_overlap_mr_selected_planes.
+
+"""
 
 
 def statements():
@@ -175,14 +312,33 @@ def main():
         L.append("Theorem %s :\n  %s.\nProof. exact %s. Qed.\nPrint Assumptions %s.\n\n" % (thm, body, conj(lemmas), thm))
     L.append(EXAMPLE)
     L.append("End GenAgreePairwise_C13.\n")
+    L.append(HEAD2)
+    for thm, lemmas in GROUPS2:
+        parts = ["(%s)" % st[n].strip() if len(lemmas) > 1 else st[n].strip() for n in lemmas]
+        body = " /\\\n  ".join(parts)
+        L.append("Theorem %s :\n  %s.\nProof. exact %s. Qed.\nPrint Assumptions %s.\n\n" % (thm, body, conj(lemmas), thm))
+    L.append(MEANING2)
+    L.append("End GenAgreeOverlapBases_C13.\n")
     path = os.path.join(COQ, "Props", "C13.v")
     src = open(path).read()
+    block = "".join(L).rstrip("\n") + "\n" + ENDMARK + "\n"
     if MARK in src:
-        src = src[: src.index(MARK)]
-    if not src.endswith("\n\n"):
-        src = src.rstrip("\n") + "\n\n"
-    open(path, "w").write(src + "".join(L))
-    missing = [n for n in st if not any(n in g[1] for g in GROUPS)]
+        i = src.index(MARK)
+        rest = src[i:]
+        # our block ends at our END marker, else (older file) where another generated appendix begins, else at EOF
+        if ENDMARK in rest:
+            j = i + rest.index(ENDMARK) + len(ENDMARK)
+            tail = src[j:].lstrip("\n")
+        elif OTHER_BEGIN in rest:
+            j = i + rest.index(OTHER_BEGIN)
+            tail = src[j:]
+        else:
+            tail = ""
+        src = src[:i] + block + ("\n" + tail if tail else "")
+    else:
+        src = src.rstrip("\n") + "\n\n" + block
+    open(path, "w").write(src)
+    missing = [n for n in st if not any(n in g[1] for g in GROUPS + GROUPS2)]
     if missing:
         print("lemmas not re-exported:", missing)
 
